@@ -183,3 +183,45 @@ def src1(x: Any = None) -> Any:
 
 def src2(x: Any = None) -> Any:
     return x
+
+
+# ---------------------------------------------------------------------------- workflow scripts (C18)
+
+WF_LOG: list[dict] = []
+WF_ATTEMPTS: dict[str, int] = {}
+
+
+def wfchild(x: Any = None) -> Any:
+    return x
+
+
+def wfprog(script: Any, tag: str = "", fail_until: int = 0) -> Any:
+    """Interprets a list of deterministic-workflow operations and logs what it observed."""
+    from pynenc.exceptions import RetryError
+
+    t = _this_task("wfprog")
+    child = _this_task("wfchild")
+    inv = t.invocation
+    iid = str(inv.invocation_id)
+    with _LOG_LOCK:
+        WF_ATTEMPTS[iid] = WF_ATTEMPTS.get(iid, 0) + 1
+        attempt = WF_ATTEMPTS[iid]
+    vals: list = []
+    pause = HOOKS.get("wf_pause")
+    for op in script:
+        if op[0] == "random":
+            vals.append(("random", t.wf.random()))
+        elif op[0] == "time":
+            vals.append(("time", t.wf.utc_now().isoformat()))
+        elif op[0] == "uuid":
+            vals.append(("uuid", t.wf.uuid()))
+        elif op[0] == "task":
+            ci = t.wf.execute_task(child, op[1])
+            vals.append(("task", op[1], str(ci.invocation_id)))
+        if pause is not None:
+            pause()
+    with _LOG_LOCK:
+        WF_LOG.append({"wf": str(inv.workflow.workflow_id), "inv": iid, "attempt": attempt, "tag": tag, "values": vals})
+    if attempt <= fail_until:
+        raise RetryError(f"attempt {attempt}")
+    return len(vals)
